@@ -15,8 +15,9 @@ mod run;
 use std::io::{BufRead, Write};
 
 fn main() {
-    let args: Vec<String> = std::env::args().collect();
-    let mode = args.get(1).map(|s| s.as_str()).unwrap_or("lines");
+    // paths on the command line are arbitrary bytes (directory names that are not valid UTF-8 are legal)
+    let args: Vec<std::ffi::OsString> = std::env::args_os().collect();
+    let mode = args.get(1).and_then(|s| s.to_str()).unwrap_or("lines");
     match mode {
         "lines" => {
             // Panics inside the code under test are observations, not harness failures.
